@@ -177,15 +177,22 @@ def cases(tier, seed, args):
 
 # ---------------------------------------------------------------------------
 def _assign_int(S, alg, batch=0):
+    """The callee gets its own C-contiguous array of the matrix' dtype (a caller's score matrix as the aligners build it);
+    it must not write into it: the same object is compared with a snapshot afterwards."""
     S = np.asarray(S)
     if batch == 0:
-        res, exc = _call(pa._mapping_from_score_matrix, S, alg)
+        arg = np.ascontiguousarray(S).copy()
+        snap = arg.copy()
+        res, exc = _call(pa._mapping_from_score_matrix, arg, alg)
     else:
         # stacked call: the matrix under test is one bin of a stack
-        stack = np.stack([S[::-1, ::-1]] * batch + [S])
-        res, exc = _call(pa._mapping_from_score_matrix, stack, alg)
+        arg = np.stack([S[::-1, ::-1]] * batch + [S])
+        snap = arg.copy()
+        res, exc = _call(pa._mapping_from_score_matrix, arg, alg)
         if res is not None:
             res = res[:, -1]
+    if not np.array_equal(arg, snap, equal_nan=True):
+        res, exc = None, 'InputMutated'
     return res, exc
 
 
